@@ -1944,7 +1944,16 @@ impl StorageEngine {
         let new_len = if let Some(stored_value) = shard_guard.data.get_mut(&key) {
             match &mut stored_value.value {
                 Value::String(bytes) => {
-                    let required_len = offset + value.len();
+                    if value.is_empty() {
+                        // Nothing to write: the string is left as it is
+                        return Ok(bytes.len());
+                    }
+                    let required_len = match offset.checked_add(value.len()) {
+                        Some(n) if n <= 512 * 1024 * 1024 => n,
+                        _ => return Err(FerrousError::Command(CommandError::Generic(
+                            "string exceeds maximum allowed size (512MB)".to_string()
+                        ))),
+                    };
                     if required_len > bytes.len() {
                         bytes.resize(required_len, 0);
                     }
@@ -1959,6 +1968,16 @@ impl StorageEngine {
                 _ => return Err(StorageError::WrongType.into()),
             }
         } else {
+            if value.is_empty() {
+                // Nothing to write: no key is created
+                return Ok(0);
+            }
+            match offset.checked_add(value.len()) {
+                Some(n) if n <= 512 * 1024 * 1024 => {}
+                _ => return Err(FerrousError::Command(CommandError::Generic(
+                    "string exceeds maximum allowed size (512MB)".to_string()
+                ))),
+            }
             // Create new string with padding
             let mut new_string = vec![0; offset + value.len()];
             new_string[offset..].copy_from_slice(&value);
